@@ -159,6 +159,23 @@ def run_chunk(items, idxs, env, results, timeout=150):
             todo = todo[k:]
             continue
         i = todo[k]
+        if rc == 87:
+            # the harness ended the child because one piece ran longer than the limit.  On a loaded machine a long but
+            # finite piece (a 10^7-frame recursion that ends in the stack-overflow error) crosses the limit in one
+            # configuration and not in another: the item runs once more, alone, with eight times the limit, and only
+            # if it exceeds that too is it recorded as not answering
+            e2 = child_env(env)
+            e2["C02_PIECE_LIMIT_MS"] = str(PIECE_LIMIT_MS["v"] * 8)
+            try:
+                p2 = subprocess.run([C.bin_path("c02")], input=PSEP.join(items[i]) + "\n", stdout=subprocess.PIPE, stderr=subprocess.PIPE,
+                                    timeout=timeout + PIECE_LIMIT_MS["v"] * 8 // 1000 * len(items[i]), text=True, env=e2, errors="replace")
+                r2 = parse_records(p2.stdout)
+                if r2 and len(r2[0]) == len(items[i]):
+                    results[i] = r2[0]
+                    todo = todo[k + 1:]
+                    continue
+            except subprocess.TimeoutExpired:
+                pass
         why = "timeout" if rc == 124 else "exit %d: %s" % (rc, " ".join((err or "").strip().splitlines()[-1:])[:160])
         got = recs[k] if k < len(recs) else []
         crash = {"out": "", "res": ("crash", why)}
